@@ -163,7 +163,7 @@ def evaluate(j, identical, T, M, res: Result, case):
     # --- scaling laws
     try:
         D3 = float(m.tracer_diffusivity(dimensions=3))
-        for k in (0.5, 2.0, 3.7):
+        for k in (0.5, 2.0, 3.7, 1e-4, 1e3):
             _, tk = make(st, M * k, dt, 300.0)
             mk = TrajectoryMetrics(tk)
             ev(4)
@@ -185,6 +185,25 @@ def evaluate(j, identical, T, M, res: Result, case):
                 V('attempt-frequency-does-not-scale-with-inverse-time-step', f's={s}')
     except Exception as e:  # noqa: BLE001
         V(f'scaling-raise-{type(e).__name__}', str(e))
+    # --- parts of a single frame still count (their diffusivity is 0)
+    try:
+        for n in (T - 3, T - 1):
+            parts = traj.split(n)
+            if not any(len(p) == 1 for p in parts):
+                continue
+            own = []
+            for p in parts:
+                pos = np.array(p.positions)
+                stp = np.diff(pos, axis=0)
+                stp -= np.round(stp)
+                unp = np.concatenate([pos[:1], pos[:1] + np.cumsum(stp, axis=0)], axis=0)
+                own.append(own_D(unp, M, 3, dt))
+            u = TrajectoryMetricsStd(parts).tracer_diffusivity(dimensions=3)
+            ev(2)
+            if not close(u.nominal_value, np.mean(own), 1e-9, 1e-30) or not close(u.std_dev, np.std(own), 1e-8, 1e-30):
+                V('std-variant-wrong-with-single-frame-parts', f'n={n} part lengths {[len(p) for p in parts]}: {u.nominal_value}+-{u.std_dev} vs {np.mean(own)}+-{np.std(own)}')
+    except Exception as e:  # noqa: BLE001
+        V(f'std-variant-single-frame-raise-{type(e).__name__}', str(e))
     # --- mean / std over parts
     try:
         for n in (1, 2, 3):
